@@ -1346,6 +1346,27 @@ CHECK_REPLAY_WINDOW:
  */
         if (ssl->hsState == SSL_HS_FINISHED)
         {
+            if (ssl->decState == SSL_HS_CCC && !(ACTV_VER(ssl, v_dtls_any)))
+            {
+                /* The previous message was a ChangeCipherSpec already:
+                    only Finished may follow it (DTLS may see the
+                    ChangeCipherSpec of a retransmitted flight) */
+                ssl->err = SSL_ALERT_UNEXPECTED_MESSAGE;
+                psTraceErrr("Repeated ChangeCipherSpec\n");
+                goto encodeResponse;
+            }
+#ifdef USE_STATELESS_SESSION_TICKETS
+            if (!(ssl->flags & SSL_FLAGS_SERVER) && ssl->sid &&
+                ssl->sid->sessionTicketState == SESS_TICKET_STATE_RECVD_EXT)
+            {
+                /* RFC 5077 3.3: a server that sent the SessionTicket
+                    extension MUST send NewSessionTicket before its
+                    ChangeCipherSpec */
+                ssl->err = SSL_ALERT_UNEXPECTED_MESSAGE;
+                psTraceErrr("ChangeCipherSpec before NewSessionTicket\n");
+                goto encodeResponse;
+            }
+#endif
             if (sslActivateReadCipher(ssl) < 0)
             {
                 ssl->err = SSL_ALERT_INTERNAL_ERROR;
